@@ -542,15 +542,19 @@ class SkyCoordTableCoordinate(BaseTableCoordinate):
                               names=self.names,
                               physical_types=self.physical_types)
         else:
-            self._slice = [self.combine_slices(a, b) for a, b in zip(sane_item, self._slice)]
-            if all([isinstance(s, Integral) for s in self._slice]):
+            # The slice is recorded on a new object: this one must keep describing the unsliced table.
+            new = type(self)(self.table, mesh=True, names=self.names, physical_types=self.physical_types)
+            new._dropped_world_dimensions = copy.deepcopy(self._dropped_world_dimensions)
+            # The slice already held is applied first, then the new one.
+            new._slice = [self.combine_slices(b, a) for a, b in zip(sane_item, self._slice)]
+            if all([isinstance(s, Integral) for s in new._slice]):
                 # Here we rebuild the SkyCoord with the slice applied to the individual components.
-                new_sc = SkyCoord(self.table.realize_frame(type(self.table.data)(*self._sliced_components)))
+                new_sc = SkyCoord(self.table.realize_frame(type(self.table.data)(*new._sliced_components)))
                 return type(self)(new_sc,
                                   mesh=False,
                                   names=self.names,
                                   physical_types=self.physical_types)
-            return self
+            return new
 
     @property
     def frame(self):
